@@ -51,7 +51,13 @@ type walPoint struct {
 	lineN  int // number of event lines of the history before the crash
 }
 
-func getRes(q queue.Queue, w *walwrap.World, s int64) int {
+func getRes(q queue.Queue, w *walwrap.World, s int64) (res int) {
+	// a panic of the code under test is an answer (one the specification does not allow), not a harness failure
+	defer func() {
+		if r := recover(); r != nil {
+			res = -99
+		}
+	}()
 	b, err := q.Get(s)
 	if err != nil {
 		if errors.Is(err, queue.ErrOutOfSequenceRange) {
